@@ -49,7 +49,8 @@ def type_text(spec):
     n = len(spec["ftypes"])
     tys = []
     for t in spec["ftypes"]:
-        tys.append({"term": TERM, "w": W, "T": "T", "U": "U"}[t])
+        # sterm / sw: the same two types, spelled through `Self` (a projection of a trait the struct implements)
+        tys.append({"term": TERM, "w": W, "T": "T", "U": "U", "sterm": "<Self as HasTy>::A", "sw": "<Self as HasTy>::B"}[t])
     g = ""
     if spec["generic"]:
         ps = sorted({t for t in spec["ftypes"] if t in ("T", "U")})
@@ -68,11 +69,14 @@ def type_text(spec):
     if spec.get("co"):
         fattr[spec["bfield"]] = fattr.get(spec["bfield"], "") + "#[debug(ignore)] "
     head = f"#[::derive_ex::derive_ex({tl})]\n" if spec["entry"] == "attr" else f"#[derive(::derive_ex::Ex)]\n#[derive_ex({tl})]\n"
+    tail = ""
+    if any(t in ("sterm", "sw") for t in spec["ftypes"]):
+        tail = f"\npub trait HasTy {{ type A; type B; }}\nimpl{g} HasTy for Ty{g} {{ type A = {TERM}; type B = {W}; }}"
     if spec["style"] == "unit":
         return head + "pub struct Ty;"
     if spec["style"] == "tuple":
-        return head + f"pub struct Ty{g}(" + ", ".join(fattr.get(i, "") + t for i, t in enumerate(tys)) + ");"
-    return head + f"pub struct Ty{g} {{ " + ", ".join(f"{fattr.get(i, '')}{fname(spec, i)}: {t}" for i, t in enumerate(tys)) + " }"
+        return head + f"pub struct Ty{g}(" + ", ".join(fattr.get(i, "") + t for i, t in enumerate(tys)) + ");" + tail
+    return head + f"pub struct Ty{g} {{ " + ", ".join(f"{fattr.get(i, '')}{fname(spec, i)}: {t}" for i, t in enumerate(tys)) + " }" + tail
 
 
 def inst(spec):
@@ -84,7 +88,7 @@ def inst(spec):
 
 def fkind(spec, i):
     t = spec["ftypes"][i]
-    return {"term": "term", "w": "w", "T": "term", "U": "w"}[t]
+    return {"term": "term", "w": "w", "T": "term", "U": "w", "sterm": "term", "sw": "w"}[t]
 
 
 def mk(spec, side, pair):
@@ -255,11 +259,16 @@ def corpus(tier, rng):
         for style in ("tuple", "named"):
             k += 1
             specs.append(make_spec([op], style, ["term" if (i + k) % 4 else "w" for i in range(11 + k % 2)], entry="attr" if k % 2 else "derive"))
+    # field types spelled through `Self` (the impls for `&Ty` must not read it as `&Ty`), every operator
+    for op in allops:
+        k += 1
+        specs.append(make_spec([op], "named" if k % 2 else "tuple", ["sterm", "w", "sw"][: 2 + k % 2], entry="attr" if k % 3 else "derive"))
+    specs.append(make_spec(["Add", "SubAssign", "Neg"], "named", ["T", "sterm", "sw"], True, "attr"))
     nextra = 150 if tier == "quick" else 1500
     for _ in range(nextra):
         n = rng.randint(1, 4)
         generic = rng.random() < 0.5
-        ft = [rng.choice(["T", "U", "term", "w"] if generic else ["term", "w"]) for _ in range(n)]
+        ft = [rng.choice(["T", "U", "term", "w", "sterm"] if generic else ["term", "w", "term", "w", "sterm", "sw"]) for _ in range(n)]
         generic = any(t in ("T", "U") for t in ft)
         ops = rng.sample(allops, rng.randint(1, 5))
         specs.append(make_spec(ops, rng.choice(["tuple", "named"]), ft, generic, rng.choice(["attr", "derive"]), rng.choice(["f", "rev"]),
@@ -320,7 +329,7 @@ def run(rep, tier, rng):
     rep.exhaustive = True
     rep.rule = ("complete over 22 operator traits x {unit, tuple(0-4), named(0-4), tuple/named(11-12)} with free-term-algebra fields "
                 "(non-commutative, call-recording) and wrapping-integer fields, plus generic / mixed / multi-operator types; named "
-                "structs are declared both with field names in sorted order and in reverse-sorted order; "
+                "structs are declared both with field names in sorted order and in reverse-sorted order; field types are also spelled through `Self` (`<Self as HasTy>::A`); "
                 "every owned/reference form is applied and the logged result, per-field operator call trace and borrowed "
                 "operands are compared with the field-wise expectation. evaluations = operator applications observed; "
                 "distinct_nontrivial = distinct (operator, form, struct kind, arity, generic).")
